@@ -68,6 +68,19 @@ def check(report, tier, seed):
         cases["f%d" % nf] = {"hcl": "\n".join(r[0]) + "\n", "yo": gen.yo_image(rng, 10 * cycles + 30), "cycles": cycles,
                              "flags": "-", "timeout": 9999, "expect_accept": False}
         nf += 1
+    # a width fault nested under every operator form (the checker must look inside all of them): rejected - or,
+    # if ever accepted, simulated like the rest
+    forms = ["!(%s)", "!(%s)", "!(%s)", "-(%s)", "-(%s)", "~(%s)", "~(%s)", "((%s))[0..1]", "[ (%s) == 0 : 1; 1 : 0 ]", "[ 1 : (%s); ]", "(1 in { (%s), 0 })", "((%s) in { 1, 2 })",
+             "((%s) .. 0b1)", "(0b1 .. (%s))", "(1 + (%s))", "((%s) << 1)", "((%s) == 0)", "((%s) && 1)", "(1 || (%s))"]
+    faults = ["fa & fb", "fa & fb", "fa | fb", "fb ^ fa", "fa == fb", "fa ^ fb", "(fa)[0..9]", "(fa)[3..1]", "(7 .. fa)", "fb && 1", "[ 1 : fa; 0 : fb; ]", "fa in { fb }", "nosuch9"]
+    for j in range(90 if tier == "quick" else 1500):
+        inner = rng.choice(faults)
+        expr = rng.choice(forms) % inner
+        if rng.random() < 0.4:
+            expr = rng.choice(forms) % expr
+        hcl = "\n".join(["register pP { pc : 64 = 0; }", "p_pc = P_pc + 1;", "pc = P_pc;", "Stat = STAT_AOK;", "wire fa : 4, fb : 8;",
+                         "fa = (P_pc)[0..4];", "fb = (P_pc)[0..8];", "wire fz : %d;" % rng.choice([1, 4, 8, 64]), "fz = %s;" % expr]) + "\n"
+        cases["g%d" % j] = {"hcl": hcl, "yo": gen.yo_image(rng, 40), "cycles": cycles, "flags": "-", "timeout": 9999, "expect_accept": False}
     total = collections.Counter()
     for profile in ("dev", "noovf"):
         impl, model, stats = simcheck.run_sim_cases(report, cases, profile=profile, key_prefix="safety-" + profile)
